@@ -18,7 +18,8 @@ import (
 // Proposed known-finding ids for the numeric functions (see notes/C34.md).
 const (
 	kfCeilFloorSat = "C34-ceil-floor-int64-saturation" // CEIL/FLOOR of a DECIMAL/DOUBLE beyond the BIGINT range returns ±2^63
-	kfAbsMinInt    = "C34-abs-min-signed-integer"      // ABS(-128 | -32768 | -2147483648 | -9223372036854775808) returns the argument
+	kfAbsMinInt    = "C34-abs-min-narrow-integer"      // ABS(-128 | -32768 | -2147483648) on a TINYINT/SMALLINT/INT value returns the argument
+	kfAbsMinBigint = "C34-abs-min-bigint"              // ABS(-9223372036854775808) returns the argument instead of an out-of-range error
 	kfSignRounds   = "C34-sign-rounds-to-integer"      // SIGN(x) = 0 for 0 < |x| < 0.5 (argument converted to BIGINT first)
 	// CEIL/FLOOR call apd's Ceil/Floor with the argument as destination (aliasing). Two
 	// symptoms: (1) the argument value is rounded in place — a DECIMAL column value changes in
@@ -142,9 +143,13 @@ func TestC34Num(t *testing.T) {
 		default:
 			iv = int64(genUint64(rt, "i"))
 		}
-		isMinSigned := iv == math.MinInt64 || iv == math.MinInt32 || iv == math.MinInt16 || iv == math.MinInt8
+		isMinSigned := iv == math.MinInt32 || iv == math.MinInt16 || iv == math.MinInt8
 		if isMinSigned && excluding(kfAbsMinInt) {
 			st.Excluded(kfAbsMinInt)
+			iv++
+		}
+		if iv == math.MinInt64 && excluding(kfAbsMinBigint) {
+			st.Excluded(kfAbsMinBigint)
 			iv++
 		}
 		// double argument: decimal mantissa with an exponent, so that it is written exactly as a literal
@@ -358,8 +363,13 @@ func TestC34Num(t *testing.T) {
 		it.errOK = iv == math.MinInt64
 		it.known = func(v any, err error) string {
 			// signature: i is the minimum of a signed integer width and comes back unchanged
-			if r, ok := num(v); err == nil && isMinSigned && ok && r.Cmp(ir) == 0 {
-				return kfAbsMinInt
+			if r, ok := num(v); err == nil && ok && r.Cmp(ir) == 0 {
+				switch {
+				case isMinSigned:
+					return kfAbsMinInt
+				case iv == math.MinInt64:
+					return kfAbsMinBigint
+				}
 			}
 			return ""
 		}
